@@ -888,4 +888,113 @@ theorem cols_remove_refines (cols : List Col) (col : Int) (c : Int) :
         · rfl
         · exact ih
 
+/-! ## DuplicateRowTo -/
+
+/-- the three duplicate helpers run in this order (conditional formats, data validations, merged cells) -/
+theorem dup_helpers_ok :
+    Facts.C06.dupHelpers = ["duplicateConditionalFormat", "duplicateDataValidations", "duplicateMergeCells"] := by
+  decide
+
+/-- `DuplicateRowTo`, the grid step: after the one-row insertion at `row2` (state `rows1`, refined by
+`insert_rows_refines`' statement) the copy of the source row is placed in the slot of `row2` — padding with
+empty row slots when `row2` lies beyond the last row. The result is dense, row `row2` shows exactly what row
+`row` showed (hidden flag, attributes, cell styles and payloads), every other row shows the one-row shift of
+the old sheet. (`duplicateConditionalFormat` / `duplicateDataValidations` do not touch the rows; the cell
+clearing of `duplicateMergeCells` on the copy is modelled (`mergeRowCells`) and compared in the transcript,
+not covered by this theorem.) -/
+theorem duplicate_refines (rows rows1 : List Row) (hw : WF rows) (hw1 : WF rows1) (row row2 : Int)
+    (h1 : 1 ≤ row) (h2 : 1 ≤ row2) (hle : row2 ≤ maxRows)
+    (hv1 : ∀ r, viewAt rows1 r = Spec.insAt row2 1 emptyView (viewAt rows) r)
+    (rc : Row) (hsrc : rows.find? (fun r => r.r == row) = some rc) :
+    WF (placeCopy rows1 row2 (bumpRow (row2 - row) rc)) ∧
+    ∀ r, viewAt (placeCopy rows1 row2 (bumpRow (row2 - row) rc)) r =
+      if r = row2 then viewAt rows row else Spec.insAt row2 1 emptyView (viewAt rows) r := by
+  have hform := placeCopy_getElem rows1 hw1.rowsDense row2 h2 (bumpRow (row2 - row) rc)
+  have hrc : rc ∈ rows ∧ rc.r = row := by
+    have := List.find?_some hsrc
+    exact ⟨List.mem_of_find?_eq_some hsrc, by simpa using this⟩
+  obtain ⟨i, hi⟩ := List.mem_iff_getElem?.mp hrc.1
+  have hki := hw.rowsDense i rc hi
+  have hslot : slotRow rows row = some rc := by
+    unfold slotRow
+    have : (row - 1).toNat = i := by omega
+    simp [h1, this, hi]
+  have hcls : ∀ (j : Nat) (y : Row), (placeCopy rows1 row2 (bumpRow (row2 - row) rc))[j]? = some y →
+      (y = bumpRow (row2 - row) rc ∧ (j : Int) + 1 = row2) ∨ (rows1[j]? = some y ∧ j < rows1.length) ∨
+      (y = ⟨(j : Int) + 1, false, "-", []⟩ ∧ (j : Int) + 1 < row2) := by
+    intro j y hy
+    rw [hform j] at hy
+    by_cases c : (j : Int) + 1 = row2
+    · simp only [c, if_true] at hy; exact Or.inl ⟨(Option.some.inj hy).symm, c⟩
+    · by_cases cj : j < rows1.length
+      · simp only [c, if_false, cj, if_true] at hy; exact Or.inr (Or.inl ⟨hy, cj⟩)
+      · by_cases c3 : (j : Int) + 1 < row2
+        · simp only [c, if_false, cj, c3, if_true] at hy
+          exact Or.inr (Or.inr ⟨(Option.some.inj hy).symm, c3⟩)
+        · simp [c, cj, c3] at hy
+  constructor
+  · refine ⟨?_, ?_, ?_, ?_, ?_⟩
+    · intro j y hy
+      rcases hcls j y hy with ⟨rfl, h⟩ | ⟨h, _⟩ | ⟨rfl, _⟩
+      · simp only [bumpRow]; omega
+      · exact hw1.rowsDense j y h
+      · rfl
+    · intro y hy
+      obtain ⟨j, hj⟩ := List.mem_iff_getElem?.mp hy
+      rcases hcls j y hj with ⟨rfl, _⟩ | ⟨h, _⟩ | ⟨rfl, _⟩
+      · exact bump_cells_dense _ rc (hw.cellsDense rc hrc.1)
+      · exact hw1.cellsDense y (List.mem_of_getElem? h)
+      · intro k z hz; simp at hz
+    · intro y hy z hz
+      obtain ⟨j, hj⟩ := List.mem_iff_getElem?.mp hy
+      rcases hcls j y hj with ⟨rfl, _⟩ | ⟨h, _⟩ | ⟨rfl, _⟩
+      · simp only [bumpRow, List.mem_map] at hz
+        obtain ⟨w, _, rfl⟩ := hz
+        rfl
+      · exact hw1.cellRows y (List.mem_of_getElem? h) z hz
+      · simp at hz
+    · by_cases c : ((placeCopy rows1 row2 (bumpRow (row2 - row) rc)).length : Int) ≤ maxRows
+      · exact c
+      · exfalso
+        have h7 := hw1.rowsLe
+        have hmr : maxRows = 1048576 := by decide
+        have hj : maxRows.toNat < (placeCopy rows1 row2 (bumpRow (row2 - row) rc)).length := by omega
+        rcases hcls _ _ (List.getElem?_eq_getElem hj) with ⟨_, h⟩ | ⟨_, h⟩ | ⟨_, h⟩ <;> omega
+    · intro y hy
+      obtain ⟨j, hj⟩ := List.mem_iff_getElem?.mp hy
+      rcases hcls j y hj with ⟨rfl, _⟩ | ⟨h, _⟩ | ⟨rfl, _⟩
+      · have := hw.colsLe rc hrc.1
+        simpa [bumpRow] using this
+      · exact hw1.colsLe y (List.mem_of_getElem? h)
+      · simp [maxCols]
+  · intro r
+    by_cases hr : 1 ≤ r
+    · have hj : (((r - 1).toNat : Nat) : Int) + 1 = r := by omega
+      have e : viewAt (placeCopy rows1 row2 (bumpRow (row2 - row) rc)) r =
+          match (placeCopy rows1 row2 (bumpRow (row2 - row) rc))[(r - 1).toNat]? with
+          | some x => rowView x
+          | none => emptyView := by
+        unfold viewAt slotRow; simp only [hr, if_true]; rfl
+      rw [e, hform (r - 1).toNat, hj]
+      by_cases c : r = row2
+      · simp only [c, if_true, rowView_bump]
+        unfold viewAt; rw [hslot]
+      · simp only [c, if_false]
+        rw [← hv1 r]
+        have e1 : viewAt rows1 r = match rows1[(r - 1).toNat]? with
+            | some x => rowView x
+            | none => emptyView := by
+          unfold viewAt slotRow; simp only [hr, if_true]; rfl
+        rw [e1]
+        by_cases cj : (r - 1).toNat < rows1.length
+        · simp only [cj, if_true]
+        · have hn : rows1[(r - 1).toNat]? = none := List.getElem?_eq_none (by omega)
+          simp only [cj, if_false, hn]
+          by_cases c3 : r < row2 <;> simp [c3, rowView, emptyView]
+    · have c : ¬ r = row2 := by omega
+      simp only [c, if_false]
+      rw [← hv1 r]
+      unfold viewAt slotRow
+      simp [hr]
+
 end XlModel.Props.C06
